@@ -268,12 +268,12 @@ def gen(rng, index, tier):
         # default recursion limit (it must fail exactly as in a fresh process)
         ops.insert(rng.randrange(len(ops) + 1), {'kind': 'assemble', 'cfg': make_cfg(rng, pick_ok(rng), corpus.OK),
                                                  'depth': rng.choice([6000, 8000])})
-        deep_probe = make_cfg(rng, 'f_deep_expr', corpus.FAIL, w=rng.choice([32, 64]))
+        deep_probe = make_cfg(rng, rng.choice(['f_deep_expr', 'f_mdeep600', 'f_mdeep600']), corpus.FAIL, w=rng.choice([32, 64]))
     elif r_depth < 0.13:
         # an earlier call - succeeding, or failing in the parser / in macro resolution / in the writer - with a
         # LOWERED (or raised) macro-recursion depth, and a probe with a moderately deep expression that a fresh
         # process assembles
-        d = rng.choice([3, 20, 50, 50, 3000])
+        d = rng.choice([3, 20, 30, 50, 50, 3000])
         if rng.random() < 0.6:
             first = {'kind': 'fail', 'cfg': make_cfg(rng, rng.choice(['f_recursion', 'f_recursion', 'f_unknown_macro',
                                                                       'f_args', 'f_syntax', 'f_unresolved']), corpus.FAIL),
@@ -281,7 +281,7 @@ def gen(rng, index, tier):
         else:
             first = {'kind': 'assemble', 'cfg': make_cfg(rng, pick_ok(rng), corpus.OK), 'depth': d}
         ops.insert(rng.randrange(len(ops) + 1), first)
-        cfg = make_cfg(rng, rng.choice(['n_expr80', 'n_expr80', 'n_expr300', 'n_expr80_here']), corpus.OK)
+        cfg = make_cfg(rng, rng.choice(['n_expr80', 'n_expr300', 'n_expr80_here', 'n_mdeep300', 'n_mdeep300']), corpus.OK)
     if any(o.get('cfg', {}).get('program') == 'n_big_labels' for o in ops):
         cfg['debug'] = True
     if deep_probe is not None:
@@ -291,7 +291,7 @@ def gen(rng, index, tier):
     for o in ops:
         # the deep-expression programs are judged under the default depth only (under a lowered limit their outcome
         # depends on how many frames the caller already has, which differs between the history and a fresh process)
-        if o.get('cfg', {}).get('program', '').startswith('n_expr'):
+        if o.get('cfg', {}).get('program', '').startswith(('n_expr', 'n_mdeep')):
             o['depth'] = None
     return {'ops': ops, 'seed': rng.getrandbits(32)}
 
